@@ -12,6 +12,7 @@ partial def ovJ : OV → Json
   | .str s => arrJ [Json.str "s", Json.str s]
   | .fn w f x => arrJ [Json.str "f", Json.str w, natJ f, ratJ x]
   | .repr v => arrJ [Json.str "r", ovJ v]
+  | .scaled r v => arrJ [Json.str "x", ratJ r, ovJ v]
 
 def tokJ (t : Tok) : Json := arrJ [Json.str t.fmt, arrJ (t.args.map ovJ)]
 
